@@ -516,7 +516,8 @@ def crash_case(ctx, si, old, new, crash_at, d, oplog_box, fault=None) -> None:
     new_loaded = loaded(c)
     import errno
 
-    fs = CrashFS(d, crash_at, OSError(errno.ENOSPC, "No space left on device") if fault == "enospc" else None)
+    fs = CrashFS(d, crash_at, OSError(errno.ENOSPC, "No space left on device") if fault in ("enospc", "enospc-stays") else None)
+    fs.persistent = fault == "enospc-stays"
     crashed = False
     with fs:
         try:
@@ -529,7 +530,7 @@ def crash_case(ctx, si, old, new, crash_at, d, oplog_box, fault=None) -> None:
     if crash_at is None:
         oplog_box.append(list(fs.ops))
         return
-    ctx.case("D", si, repr(crash_at), fault, sample={"part": "crash point" if fault is None else "failing file operation (ENOSPC)", "scenario": si, "crash_at_op": crash_at[0], "when": crash_at[1], "op": list(fs.ops[crash_at[0]]) if crash_at[0] < len(fs.ops) else None}, kind="D" if fault is None else "D-enospc")
+    ctx.case("D", si, repr(crash_at), fault, sample={"part": "crash point" if fault is None else "failing file operation (ENOSPC)", "scenario": si, "crash_at_op": crash_at[0], "when": crash_at[1], "op": list(fs.ops[crash_at[0]]) if crash_at[0] < len(fs.ops) else None}, kind="D" if fault is None else "D-" + fault)
     replay = {"part": "D", "si": si, "crash_at": list(crash_at), "fault": fault}
     if not crashed:
         ctx.count("crash_point_not_reached")
@@ -606,6 +607,8 @@ def crash_part(ctx) -> None:
                     if pt[1] != "after":
                         # the same operation FAILS instead (an error "after" an operation is not a failure of it)
                         crash_case(ctx, si, old, new, pt, d, box, fault="enospc")
+                        # ... and the disk STAYS full: whatever the error path tries to write fails as well
+                        crash_case(ctx, si, old, new, pt, d, box, fault="enospc-stays")
         ctx.exhaustive_parts["crash before/after every file operation and after byte prefixes of every write of save_data"] = True
     finally:
         shutil.rmtree(d, ignore_errors=True)
